@@ -178,3 +178,57 @@ def xcheck(name, ok, **extra):
     ob.update(extra)
     OBS.append(ob)
     return ok
+
+
+def linearize(term, table=None):
+    """sound generalisation: every maximal non-linear arithmetic subterm (product of two non-constant factors,
+    division by a non-constant, power) is replaced by a fresh real variable (same subterm -> same variable).
+    If the linearised formula is valid, so is the original."""
+    table = {} if table is None else table
+    cache = {}
+
+    def isnum(e):
+        return z3.is_rational_value(e) or z3.is_int_value(e) or z3.is_algebraic_value(e)
+
+    def fresh(e):
+        k = e.get_id()
+        if k not in table:
+            table[k] = z3.Real('nl!%d' % len(table)) if e.sort() == z3.RealSort() else z3.Int('nli!%d' % len(table))
+        return table[k]
+
+    def go(e):
+        k = e.get_id()
+        if k in cache:
+            return cache[k]
+        r = e
+        if z3.is_app(e) and e.num_args() > 0:
+            kind = e.decl().kind()
+            if kind == z3.Z3_OP_MUL:
+                non = [a for a in e.children() if not isnum(a)]
+                if len(non) >= 2:
+                    r = fresh(e)
+                else:
+                    r = e.decl()(*[go(a) for a in e.children()])
+            elif kind in (z3.Z3_OP_DIV, z3.Z3_OP_IDIV, z3.Z3_OP_MOD) and not isnum(e.arg(1)):
+                r = fresh(e)
+            elif kind == z3.Z3_OP_POWER:
+                r = fresh(e)
+            else:
+                r = e.decl()(*[go(a) for a in e.children()])
+        cache[k] = r
+        return r
+    return go(term)
+
+
+def prove_lin(name, goal, hyps=(), timeout_ms=None, **extra):
+    """try the linearised generalisation first (QF_LRA, instant); fall back to the full non-linear query"""
+    table = {}
+    try:
+        g2 = linearize(goal, table)
+        h2 = [linearize(h, table) for h in hyps]
+        status, backend, secs, model = check(g2, h2, 10000, want_model=False, use_cvc5=False)
+        if status == 'proved':
+            return record(name, 'proved', 'z3(linearised generalisation)', secs, None, 'vc', **extra)
+    except z3.Z3Exception:
+        pass
+    return prove(name, goal, hyps, timeout_ms, **extra)
